@@ -10,7 +10,7 @@ use crate::world::{CancelKey, CloseKind, Cond, Opts, Outcome, Scenario, Step};
 use std::collections::{BTreeMap, BTreeSet};
 
 pub const PROGRAMS: &[&str] = &[
-    "txn", "autos", "ext", "failed-txn", "copyin", "copyout", "bad-password", "unknown-pool", "drop-idle", "drop-in-txn", "terminate-in-txn", "stay", "fin-in-txn", "multi-stmt", "txn-then-drop-in-txn", "txn-then-terminate-in-txn",
+    "txn", "autos", "ext", "failed-txn", "copyin", "copyout", "bad-password", "unknown-pool", "drop-idle", "drop-in-txn", "terminate-in-txn", "stay", "fin-in-txn", "multi-stmt", "txn-then-drop-in-txn", "txn-then-terminate-in-txn", "ext-copyin",
 ];
 
 pub fn program(c: usize, prog: &str) -> Script {
@@ -45,6 +45,20 @@ pub fn program(c: usize, prog: &str) -> Script {
             .send(wire::copy_data(format!("r {}\n", t(0, 1)).as_bytes()), "d")
             .send_z(wire::copy_done(), "c")
             .terminate(),
+        "ext-copyin" => {
+            let mut b = wire::parse("", &format!("COPY t FROM STDIN /*{}*/", t(0, 0)), &[]);
+            b.extend(wire::bind("", "", &[], &[], &[]));
+            b.extend(wire::execute("", 0));
+            b.extend(wire::sync());
+            let mut end = wire::copy_done();
+            end.extend(wire::sync());
+            s.connect("alice", "db", Some("alicepw"))
+                .send(b, "P B E S (COPY)")
+                .wait(Cond::CodeOrClosed(b'G', 1))
+                .send(wire::copy_data(format!("r {}\n", t(0, 1)).as_bytes()), "d")
+                .send_z(end, "c S")
+                .terminate()
+        }
         "copyout" => s.connect("alice", "db", Some("alicepw")).q(&format!("COPY t TO STDOUT /*{} rows=2*/", t(0, 0))).terminate(),
         "bad-password" => s.connect("alice", "db", Some("wrong")),
         "unknown-pool" => s.connect("alice", "nodb", Some("alicepw")),
